@@ -398,10 +398,12 @@ def index_fasta_file(file: Path, buffer_size: int = 250_000):
                 # second to last byte will be ord("\r") == 13
                 line_end_bytes = 2 if line[-2] == 13 else 1
             else:
+                # The last line of the file may lack a line ending
+                line_end = line_end_bytes if line[-1] == 10 else 0
                 if not residues_per_line:
-                    residues_per_line = len(line) - line_end_bytes
+                    residues_per_line = len(line) - line_end
 
-                seq_buffer.write(line[:-line_end_bytes])
+                seq_buffer.write(line[: len(line) - line_end])
                 if seq_buffer.tell() > buffer_size:
                     process_seq_buffer()
 
